@@ -86,6 +86,12 @@ theorem last_log_id_is_max (ops : List LogOp) (h : LogOpsOk {} ops) :
 theorem log_coherent (ops : List LogOp) (h : LogOpsOk {} ops) : (LogStore.run {} ops).Coherent :=
   LogStore.coherent_run LogStore.coherent_init ops h
 
+/-- no holes: under openraft's full calling discipline (`LogOpsFull`: entries are appended consecutively
+right after the last log id — last entry, else purge marker —, a purge never starts below the first
+entry minus one) the log has consecutive indices and its first entry comes right after `last_purged` -/
+theorem log_has_no_holes (ops : List LogOp) (h : LogOpsFull {} ops) : (LogStore.run {} ops).NoHole :=
+  LogStore.noHole_run LogStore.noHole_init ops h
+
 /-- purging everything leaves `last_log_id = last_purged = the purge id` -/
 theorem purge_everything (s : LogStore) (id : LogId) (h : ∀ e ∈ s.log, e.id.index ≤ id.index) :
     (s.purgeUpto id).getLogState = (some id, some id) := by
@@ -135,5 +141,12 @@ example :
       = (some ⟨1, 1, 1⟩, some ⟨1, 1, 1⟩) := by
   refine ⟨?_, by decide⟩
   simp [LogOpsOk, LogOp.Ok, LogStore.step, LogStore.append, LogStore.purgeUpto, above, oidx]
+
+/-- the full discipline is satisfiable by a history with a purge-everything, a conflict deletion and re-appends -/
+example :
+    LogOpsFull {} [.append [⟨⟨1, 1, 0⟩, .blank⟩, ⟨⟨1, 1, 1⟩, .blank⟩], .purgeUpto ⟨1, 1, 1⟩, .append [⟨⟨1, 1, 2⟩, .blank⟩],
+      .deleteConflictSince ⟨1, 1, 2⟩, .append [⟨⟨2, 1, 2⟩, .blank⟩, ⟨⟨2, 1, 3⟩, .blank⟩]] := by
+  simp [LogOpsFull, LogOp.Full, Consec, LogStore.step, LogStore.append, LogStore.purgeUpto,
+    LogStore.deleteConflictSince, appendLog, insertEntry, purgeLog, truncLog]
 
 end Varpulis.Props.C35
